@@ -7,6 +7,7 @@ are not decided."""
 import ast
 
 from ..core import norm, walk_no_nested, calls_in, last_name
+from .. import setalg
 
 FG = "ppci/codegen/flowgraph.py"
 IG = "ppci/codegen/interferencegraph.py"
@@ -23,7 +24,7 @@ def _anc(n):
 
 
 def run(ctx):
-    ctx.rule("C06.R1", "liveness: in = gen | (out - kill), out = union of the successors' in, iterated until neither changes; the same equation per instruction inside a block", floor=5)
+    ctx.rule("C06.R1", "liveness: in = gen | (out - kill), out = union of the successors' in, iterated until neither changes; the same equation per instruction inside a block", floor=8)
     ctx.rule("C06.R2", "interference: every pair of registers live after or defined by an instruction interferes, and each interferes with the instruction's clobbers", floor=4)
     ctx.rule("C06.R3", "colouring: a node may not take the colour of a neighbour nor of any register aliasing a neighbour's colour; without a free register the node is spilled", floor=4)
     ctx.rule("C06.R4", "spilling: a reload is inserted before every reading instruction and a store after every writing instruction, through the same stack slot", floor=4)
@@ -33,8 +34,12 @@ def run(ctx):
     ctx.need(len(eqs) >= 3, "liveness equations not found")
     for i, e in enumerate(eqs):
         x = norm(e.targets[0])[: -len(".live_in")]
-        want = "%s.gen | %s.live_out - %s.kill" % (x, x, x)
-        ctx.ob("C06.R1", s, "%s.live_in = %s.gen | (%s.live_out - %s.kill)" % (x, x, x, x), norm(e.value) == want, construct="in-eq:%d:%s" % (i, x), node=e, detail=norm(e.value))
+        want = "%s.gen | (%s.live_out - %s.kill)" % (x, x, x)
+        try:
+            ok = setalg.equivalent(setalg.term(e.value), setalg.parse(want))
+        except setalg.NotSetAlgebra:
+            ok = False
+        ctx.ob("C06.R1", s, "%s.live_in = %s.gen | (%s.live_out - %s.kill)" % (x, x, x, x), ok, construct="in-eq:%d:%s" % (i, x), node=e, detail=norm(e.value))
     outs = [n for n in ast.walk(cl) if isinstance(n, ast.Assign) and norm(n.targets[0]) == "node.live_out" and isinstance(n.value, ast.Call) and norm(n.value.func) == "set.union"]
     ok = bool(outs) and "s.live_in for s in node.successors" in norm(outs[0].value)
     ctx.ob("C06.R1", s, "node.live_out is the union of live_in over node.successors", ok, construct="out-eq", detail=norm(outs[0].value) if outs else "")
@@ -46,10 +51,26 @@ def run(ctx):
     ctx.ob("C06.R1", s, "inside a block an instruction's live_out is its successor's live_in", bool(chain) and norm(chain[0].value) == "ins2.live_in", construct="chain")
     last = [n for n in ast.walk(cl) if isinstance(n, ast.Assign) and norm(n.targets[0]) == "ins2.live_out"]
     ctx.ob("C06.R1", s, "the last instruction of a block takes the block's live_out", bool(last) and norm(last[0].value) == "node.live_out", construct="block-out")
-    ai = ctx.fn(FG, "FlowGraphNode.add_instruction", optional=True)
-    if ai is not None:
-        txt = norm(ai)
-        ctx.ob("C06.R1", FG + ":FlowGraphNode.add_instruction", "gen = used registers, kill = defined registers", "ins.gen = set(ins.used_registers)" in txt and "ins.kill = set(ins.defined_registers)" in txt, construct="gen-kill")
+    ai = ctx.fn(FG, "FlowGraphNode.add_instruction")
+    sa_ = FG + ":FlowGraphNode.add_instruction"
+    ctx.need(len(ai.args.args) == 2, "add_instruction(self, ins) signature changed")
+    me, p = ai.args.args[0].arg, ai.args.args[1].arg
+    G, K, g, k = me + ".gen", me + ".kill", p + ".gen", p + ".kill"
+    try:
+        locs = {t.id for n in ast.walk(ai) if isinstance(n, ast.Assign) for t in n.targets if isinstance(t, ast.Name)}
+        env = setalg.run_straight_line(ai.body, tracked={G, K, g, k} | locs)
+        ienv = {x: env[x] for x in (g, k) if x in env}
+        ctx.ob("C06.R1", sa_, "gen = used registers, kill = defined registers",
+               setalg.equivalent(env.get(g, ("atom", g)), setalg.parse(p + ".used_registers")) and setalg.equivalent(env.get(k, ("atom", k)), setalg.parse(p + ".defined_registers")),
+               construct="gen-kill", detail="%s; %s" % (setalg.show(env.get(g, ("atom", g))), setalg.show(env.get(k, ("atom", k)))))
+        ctx.ob("C06.R1", sa_, "appending an instruction to a node: node.gen' = node.gen | (ins.gen - node.kill), with node.kill as it was BEFORE this instruction's definitions are added (a register the instruction both reads and writes is upward exposed)",
+               G in env and setalg.equivalent(env[G], setalg.parse("%s | (%s - %s)" % (G, g, K), ienv)), construct="compose-gen", detail=setalg.show(env.get(G, ("atom", G))))
+        ctx.ob("C06.R1", sa_, "appending an instruction to a node: node.kill' = node.kill | ins.kill",
+               K in env and setalg.equivalent(env[K], setalg.parse("%s | %s" % (K, k), ienv)), construct="compose-kill", detail=setalg.show(env.get(K, ("atom", K))))
+    except setalg.NotSetAlgebra as e:
+        ctx.undecided("C06.R1", sa_, "gen/kill composition is not a straight-line set expression: %s" % e)
+    app = [c for c in ast.walk(ai) if isinstance(c, ast.Call) and norm(c.func) == me + ".instructions.append" and norm(c.args[0]) == p]
+    ctx.ob("C06.R1", sa_, "the instruction is recorded in the node (per-instruction liveness walks node.instructions)", bool(app), construct="recorded")
 
     ci = ctx.fn(IG, "InterferenceGraph.calculate_interference")
     s = IG + ":InterferenceGraph.calculate_interference"
